@@ -260,8 +260,17 @@ def totals():
 
 
 def superseded(t):
-    allows = True if t["cur_vis"] in ("Bounded", "Newer") else (not t["versioning"])
+    """ORACLE (from the properties, not from the code): a version may be dropped as `superseded by a newer one in the same
+    visibility boundary` only when versioning is off.  With versioning on an older version is history: C10 forbids losing
+    it inside the retention window whether or not a snapshot happens to be open during the compaction.  (Until D20 was
+    repaired this function mirrored the code: `allowed whenever a snapshot is open`.)"""
+    allows = not t["versioning"]
     return t["newer_some"] and allows and (not t["is_latest"]) and t["same_boundary"]
+
+
+def unneeded_by_snapshots(t):
+    """a newer version in the same visibility boundary exists: no snapshot reads this one (whatever versioning says)"""
+    return t["newer_some"] and (not t["is_latest"]) and t["same_boundary"]
 
 
 def check_obligation(cx, rows, name, premise, expect_output, key, msg, where=None, known_exception=None):
